@@ -406,25 +406,29 @@ func c05Judge(r *fw.Rec, base string, f c05Fault) {
 // not produce.
 func c05Handwritten(r *fw.Rec) {
 	cases := map[string]string{
-		"undefined/type-alias-target":       "%a = type %undefined\n@g = global i32 0\n",
-		"undefined/type-behind-pointer":     "@g = global %undefined* null\n",
-		"undefined/type-in-function-type":   "declare void @f(%undefined*)\n",
-		"undefined/type-in-struct-typedef":  "%T = type { i32, %undefined }\n@g = global %T* null\n",
-		"undefined/label-in-phi":            "define i32 @f() {\nentry:\n  br label %next\nnext:\n  %p = phi i32 [ 0, %missing ]\n  ret i32 %p\n}\n",
-		"undefined/blockaddress-block":      "@a = global i8* blockaddress(@f, %missing)\ndefine void @f() {\nentry:\n  ret void\n}\n",
-		"undefined/blockaddress-function":   "@a = global i8* blockaddress(@missing, %entry)\n",
-		"undefined/uselistorder-global":     "@g = global i32 0\nuselistorder i32* @missing, { 1, 0 }\n",
-		"undefined/uselistorder_bb-block":   "define void @f() {\nentry:\n  br label %b\nb:\n  ret void\n}\nuselistorder_bb @f, %missing, { 1, 0 }\n",
-		"undefined/uselistorder_bb-func":    "uselistorder_bb @missing, %b, { 1, 0 }\n",
-		"undefined/metadata-in-named":       "!nm = !{!7}\n",
-		"undefined/metadata-in-DI-field":    "!llvm.module.flags = !{!1}\n!1 = !{i32 2, !\"Debug Info Version\", i32 3}\n!0 = !DIBasicType(name: \"int\")\n!2 = !DIDerivedType(tag: DW_TAG_pointer_type, baseType: !77)\n!nm = !{!0, !2}\n",
-		"undefined/comdat-on-function":      "define void @f() comdat($missing) {\n  ret void\n}\n",
-		"undefined/alias-target":            "@a = alias i32, i32* @missing\n",
-		"undefined/ifunc-resolver":          "@i = ifunc void (), void ()* ()* @missing\n",
-		"undefined/personality":             "define void @f() personality i32 (...)* @missing {\n  ret void\n}\n",
-		"undefined/local-in-other-function": "define i32 @f(i32 %x) {\n  ret i32 %x\n}\ndefine i32 @g() {\n  ret i32 %x\n}\n",
-		"undefined/numbered-local":          "define i32 @f(i32) {\n  ret i32 %7\n}\n",
-		"undefined/numbered-global":         "@0 = global i32 0\n@g = global i32* @5\n",
+		"undefined/type-alias-target":      "%a = type %undefined\n@g = global i32 0\n",
+		"undefined/type-behind-pointer":    "@g = global %undefined* null\n",
+		"undefined/type-in-function-type":  "declare void @f(%undefined*)\n",
+		"undefined/type-in-struct-typedef": "%T = type { i32, %undefined }\n@g = global %T* null\n",
+		"undefined/label-in-phi":           "define i32 @f() {\nentry:\n  br label %next\nnext:\n  %p = phi i32 [ 0, %missing ]\n  ret i32 %p\n}\n",
+		"undefined/blockaddress-block":     "@a = global i8* blockaddress(@f, %missing)\ndefine void @f() {\nentry:\n  ret void\n}\n",
+		"undefined/blockaddress-function":  "@a = global i8* blockaddress(@missing, %entry)\n",
+		// a label that exists in another (unnamed / named) function only
+		"undefined/blockaddress-block-of-another-unnamed-function":    "@t = global [2 x i8*] [i8* blockaddress(@0, %a), i8* blockaddress(@1, %a)]\ndefine void @0() {\n  br label %a\na:\n  ret void\n}\ndefine void @1() {\n  br label %b\nb:\n  ret void\n}\n",
+		"undefined/blockaddress-block-of-another-function":            "@t = global [2 x i8*] [i8* blockaddress(@f, %a), i8* blockaddress(@g, %a)]\ndefine void @f() {\n  br label %a\na:\n  ret void\n}\ndefine void @g() {\n  br label %b\nb:\n  ret void\n}\n",
+		"undefined/uselistorder_bb-block-of-another-unnamed-function": "define void @0() {\n  br label %a\na:\n  ret void\n}\ndefine void @1() {\n  br label %b\nb:\n  ret void\n}\n@t = global i8* blockaddress(@0, %a)\nuselistorder_bb @1, %a, { 1, 0 }\n",
+		"undefined/uselistorder-global":                               "@g = global i32 0\nuselistorder i32* @missing, { 1, 0 }\n",
+		"undefined/uselistorder_bb-block":                             "define void @f() {\nentry:\n  br label %b\nb:\n  ret void\n}\nuselistorder_bb @f, %missing, { 1, 0 }\n",
+		"undefined/uselistorder_bb-func":                              "uselistorder_bb @missing, %b, { 1, 0 }\n",
+		"undefined/metadata-in-named":                                 "!nm = !{!7}\n",
+		"undefined/metadata-in-DI-field":                              "!llvm.module.flags = !{!1}\n!1 = !{i32 2, !\"Debug Info Version\", i32 3}\n!0 = !DIBasicType(name: \"int\")\n!2 = !DIDerivedType(tag: DW_TAG_pointer_type, baseType: !77)\n!nm = !{!0, !2}\n",
+		"undefined/comdat-on-function":                                "define void @f() comdat($missing) {\n  ret void\n}\n",
+		"undefined/alias-target":                                      "@a = alias i32, i32* @missing\n",
+		"undefined/ifunc-resolver":                                    "@i = ifunc void (), void ()* ()* @missing\n",
+		"undefined/personality":                                       "define void @f() personality i32 (...)* @missing {\n  ret void\n}\n",
+		"undefined/local-in-other-function":                           "define i32 @f(i32 %x) {\n  ret i32 %x\n}\ndefine i32 @g() {\n  ret i32 %x\n}\n",
+		"undefined/numbered-local":                                    "define i32 @f(i32) {\n  ret i32 %7\n}\n",
+		"undefined/numbered-global":                                   "@0 = global i32 0\n@g = global i32* @5\n",
 		// an unquoted all-digit token is an ID however long; it is never the name spelled with those digits
 		"undefined/id-beyond-int64-is-not-a-name/local":  "define i32 @f(i32 %\"99999999999999999999\") {\n  ret i32 %99999999999999999999\n}\n",
 		"undefined/id-beyond-int64-is-not-a-name/global": "@\"99999999999999999999\" = global i32 0\n@p = global i32* @99999999999999999999\n",
